@@ -33,6 +33,10 @@ impl<T: AsFd> AsAtRoot for T {
 
 /// See `open(2)`.
 pub fn open(path: &Path, oflag: c_int, mode: mode_t) -> Result<RawFd, Errno> {
+    #[cfg(aranya_verif)]
+    if let Some(r) = crate::verif::open(path, oflag, mode) {
+        return r;
+    }
     let fd = path.with_cstr(&|path| {
         // SAFETY: FFI call, no invariants.
         unsafe { libc::open(path, oflag, c_uint::from(mode)) }
@@ -42,6 +46,10 @@ pub fn open(path: &Path, oflag: c_int, mode: mode_t) -> Result<RawFd, Errno> {
 
 /// See `open(2)`.
 pub fn openat(fd: BorrowedFd<'_>, path: &Path, oflag: c_int, mode: mode_t) -> Result<RawFd, Errno> {
+    #[cfg(aranya_verif)]
+    if let Some(r) = crate::verif::openat(fd.fd, path, oflag, mode) {
+        return r;
+    }
     let fd = path.with_cstr(&|path| {
         // SAFETY: FFI call, no invariants.
         unsafe { libc::openat(fd.fd, path, oflag, c_uint::from(mode)) }
@@ -51,6 +59,10 @@ pub fn openat(fd: BorrowedFd<'_>, path: &Path, oflag: c_int, mode: mode_t) -> Re
 
 /// See `close(2)`.
 pub fn close(fd: RawFd) -> Result<(), Errno> {
+    #[cfg(aranya_verif)]
+    if let Some(r) = crate::verif::close(fd) {
+        return r;
+    }
     // SAFETY: FFI call, no invariants.
     let ret = unsafe { libc::close(fd) };
     if ret < 0 { Err(errno()) } else { Ok(()) }
@@ -58,6 +70,10 @@ pub fn close(fd: RawFd) -> Result<(), Errno> {
 
 /// See `flock(2)`.
 pub fn flock(fd: BorrowedFd<'_>, op: c_int) -> Result<(), Errno> {
+    #[cfg(aranya_verif)]
+    if let Some(r) = crate::verif::flock(fd.fd, op) {
+        return r;
+    }
     // SAFETY: FFI call, no invariants.
     let ret = unsafe { libc::flock(fd.fd, op) };
     if ret < 0 { Err(errno()) } else { Ok(()) }
@@ -65,6 +81,10 @@ pub fn flock(fd: BorrowedFd<'_>, op: c_int) -> Result<(), Errno> {
 
 /// See `fsync(2)`.
 pub fn fsync(fd: BorrowedFd<'_>) -> Result<(), Errno> {
+    #[cfg(aranya_verif)]
+    if let Some(r) = crate::verif::fsync(fd.fd) {
+        return r;
+    }
     // SAFETY: FFI call, no invariants.
     let ret = unsafe { libc::fsync(fd.fd) };
     if ret < 0 { Err(errno()) } else { Ok(()) }
@@ -72,6 +92,10 @@ pub fn fsync(fd: BorrowedFd<'_>) -> Result<(), Errno> {
 
 /// See `unlinkat(2)`.
 pub fn unlinkat(fd: BorrowedFd<'_>, path: &Path, flags: c_int) -> Result<(), Errno> {
+    #[cfg(aranya_verif)]
+    if let Some(r) = crate::verif::unlinkat(fd.fd, path, flags) {
+        return r;
+    }
     // SAFETY: FFI call, no invariants.
     let ret = path.with_cstr(&|path| {
         // SAFETY: FFI call, no invariants.
@@ -82,6 +106,10 @@ pub fn unlinkat(fd: BorrowedFd<'_>, path: &Path, flags: c_int) -> Result<(), Err
 
 /// See `dup(2)`.
 pub fn dup(old_fd: BorrowedFd<'_>) -> Result<RawFd, Errno> {
+    #[cfg(aranya_verif)]
+    if let Some(r) = crate::verif::dup(old_fd.fd) {
+        return r;
+    }
     // SAFETY: FFI call, no invariants.
     let ret = unsafe { libc::dup(old_fd.fd) };
     if ret < 0 { Err(errno()) } else { Ok(ret) }
